@@ -752,3 +752,23 @@ Proof.
   destruct ((0 <? s + 1) && (s + 1 <=? N.of_nat (length (cr_counts log)))); [|lia].
   replace (s + 1 - 1) with s in A by lia. assumption.
 Qed.
+
+(** the same for a running node: after start-up on [log] and ANY sequence of confirmation reports (late, out
+    of order, duplicated, some versions never confirmed) the watermark is the longest quorum prefix of the best
+    count known per version (on disk at start-up, or reported) *)
+Definition cr_live_reports (log : cr_log) (reports : list (N * N)) : list (N * N) :=
+  wm_number 0 (cr_counts log) ++ reports.
+
+Theorem live_watermark_exact : forall rf log reports,
+  wm_is_prefix (wm_quorum rf) (wm_best (cr_live_reports log reports)) (cr_live_watermark rf log reports).
+Proof.
+  intros rf log reports. unfold cr_live_watermark, cr_live_state, wm_initialize.
+  cbn [wm_mark wm_init N.to_nat skipn]. rewrite wm_rescan_fold, <- fold_left_app.
+  apply (wm_exact rf (wm_number 0 (cr_counts log) ++ reports)).
+Qed.
+
+Theorem live_below_watermark_confirmed : forall rf log reports s,
+  s < cr_live_watermark rf log reports -> wm_quorum rf <= wm_best (cr_live_reports log reports) (s + 1).
+Proof.
+  intros rf log reports s H. destruct (live_watermark_exact rf log reports) as [A _]. apply A; lia.
+Qed.
